@@ -229,7 +229,9 @@ def judge(ck, res, label, source_text, stats):
         # stage 1 died of a signal: stage 2 must end the corresponding way with the same diagnostics
         want = SIGNAL_KIND.get(nat["status"])
         stats["both-abnormal"] += 1
-        if want and end.startswith(want) and (nat["status"] != -6 or s2["err"] == nat["err"]):
+        # __FILE__ in an assertion message names the scratch directory the (cached) object was compiled in
+        canon = lambda b: re.sub(rb"/[^\s:]*/cvf-C\d\d-[^/]+/src/", b"<src>/", b)   # noqa: E731
+        if want and end.startswith(want) and (nat["status"] != -6 or canon(s2["err"]) == canon(nat["err"])):
             return True
         ck.violation(dict(base, kind="abnormal-end-differs", native_stderr=nat["err"][-400:].decode("latin-1"),
                           stage2_stderr=s2["err"][-400:].decode("latin-1"),
